@@ -124,6 +124,23 @@ def run_shard(shard, ctx):
                   "slots": slots, "sector_requests": sweep + sweep + sweep[:200] + [[0, 64], [7 * 8 - 1, 10]], "requests": [[0, 70000]]}, ctx)
 
 
+        # single requests of 17 .. 40 MiB (far above any plausible transfer cap) on a dynamic disk of 40 MiB + 3 sectors whose
+        # blocks are stored out of order, and on a fixed disk of 17 MiB
+        n = 21
+        states = [DATA if i % 5 != 3 else HOLE for i in range(n)]
+        nd = sum(1 for x in states if x == DATA)
+        slots, k = [], 0
+        for x in states:
+            slots.append((k * 7) % nd if x == DATA else None)
+            k += x == DATA
+        MiB = 1 << 20
+        run_case({"kind": "dyn", "geom": dict(spb=4096, W=n, cut=4093, extra=0, layout="std", flen=512, big=True), "states": states,
+                  "slots": slots, "sector_requests": [[0, 64], [4095, 2]],
+                  "requests": [[0, 40 * MiB + 1536], [MiB + 5, 17 * MiB], [3 * MiB, 33 * MiB + 7], [8192, 16 * MiB + 8192], [0, 24 * MiB]]}, ctx)
+        run_case({"kind": "fixed", "nsec": 17 * 2048 + 3, "flen": 512, "sector_requests": [[0, 8]],
+                  "requests": [[0, 17 * MiB + 1536], [4096, 16 * MiB + 4096 + 1], [MiB - 1, 16 * MiB + 2]]}, ctx)
+
+
 def run_case(case, ctx):
     from dissect.hypervisor.disk.vhd import VHD
 
@@ -145,8 +162,11 @@ def run_case(case, ctx):
         disk = B.model_fixed(nsec, prefix=prefix)
         states = slots = srcs = None
         unit = 512
-        reqs = request_pairs(boundaries(size, 4096, buf))
-        sreqs = [(a, c) for a, c in request_pairs(sorted({p // 512 for p in boundaries(size, 4096, buf) if p <= size}))]
+        if "requests" in case:  # (explicit lists are substituted below; the boundary product of a large disk is not needed)
+            reqs, sreqs = [], []
+        else:
+            reqs = request_pairs(boundaries(size, 4096, buf))
+            sreqs = [(a, c) for a, c in request_pairs(sorted({p // 512 for p in boundaries(size, 4096, buf) if p <= size}))]
         big = False
         subject = f"vhd.fixed.f{case['flen']}"
     else:
